@@ -30,6 +30,32 @@ Theorem C12_without_isolated_identity : forall b, iso_positions b = [] -> withou
 Proof. exact no_iso_identity. Qed.
 Print Assumptions C12_without_isolated_identity.
 
+(* removing isolated pairs: the sequence and the numbering stay; the 5'->3' pairs that remain are exactly the entries of the stems
+   of length two or more, in order; every entry keeps its partner unless it belongs to a stem of length one *)
+From RV Require Import Proofs.C12Iso.
+Theorem C12_without_isolated_sequence : forall b,
+    map idx (without_isolated b) = map idx b /\ map nt (without_isolated b) = map nt b.
+Proof. intros b. split; [exact (wi_idx b)|exact (wi_nt b)]. Qed.
+Print Assumptions C12_without_isolated_sequence.
+
+Theorem C12_without_isolated_pairs : forall b, valid b = true ->
+    paired53 (without_isolated b) = concat (filter (fun st => 2 <=? length st) (stems b)).
+Proof. exact without_isolated_pairs. Qed.
+Print Assumptions C12_without_isolated_pairs.
+
+Theorem C12_without_isolated_entries : forall b k e, nth_error b k = Some e ->
+    exists e', nth_error (without_isolated b) k = Some e' /\ idx e' = idx e /\ nt e' = nt e /\
+               (pair e' = pair e \/ (pair e' = 0 /\ exists e0, In [e0] (stems b) /\ (idx e = idx e0 \/ idx e = pair e0))).
+Proof. exact without_isolated_entries. Qed.
+Print Assumptions C12_without_isolated_entries.
+
+Example C12_without_isolated_pairs_nonvacuous :
+  let b := map (fun x => {| idx := fst x; nt := "A"%char; pair := snd x |})
+               [(1,6);(2,5);(3,0);(4,0);(5,2);(6,1);(7,0);(8,12);(9,0);(10,0);(11,0);(12,8)] in
+  valid b = true /\ map (fun e => (idx e, pair e)) (paired53 b) = [(1,6);(2,5);(8,12)] /\
+  map (fun e => (idx e, pair e)) (paired53 (without_isolated b)) = [(1,6);(2,5)].
+Proof. exact without_isolated_pairs_nonvacuous. Qed.
+
 (* non-vacuity: the design's witness ((..)).(...) — a stem of length 2 and an isolated pair — through the history
    [without_isolated; str] *)
 Example C12_nonvacuous :
